@@ -123,6 +123,17 @@ def option_sweep(name, fn, sig, base_args, D, allowed) -> List[dict]:
                     plans.append({nm: tens[nm], "dims": dd})
     if "dims" in names:
         plans += [{"dims": (0,)}, {"dims": (D - 1,)}]
+    # masks / weight maps given as float32, float64, uint8 and bool tensors shaped like the first image argument, alone and in pairs
+    first_img = next((v for v in base_args.values() if isinstance(v, Tensor) and v.ndim >= 4), None)
+    mask_names = sorted(names & {"mask", "source_mask", "target_mask", "weight"})
+    if first_img is not None and mask_names:
+        gm = torch.Generator().manual_seed(7)
+        m0 = (torch.rand((first_img.shape[0], 1) + tuple(first_img.shape[2:]), generator=gm) > 0.3)
+        for cast in (lambda t: t.float(), lambda t: t.double(), lambda t: t.to(torch.uint8), lambda t: t):
+            for nm in mask_names:
+                plans.append({nm: cast(m0)})
+            for nm1, nm2 in itertools.combinations(mask_names, 2):
+                plans.append({nm1: cast(m0), nm2: cast(~m0 | m0.roll(1, -1))})
     if "ignore_index" in names:
         plans += [{"ignore_index": 1}, {"ignore_index": 0}]
     bools = [p for p in opts if isinstance(p.default, bool) and p.name not in ("inplace",)]
